@@ -592,3 +592,153 @@ def inline_detail(F, body, raw):
                 det["blocks"].append({"id": i, "cleanup": True, "stmts": [], "term": {"k": "unreachable"}})
         det["blocks"].sort(key=lambda b: b["id"])
     return det
+
+
+# ------------------------------------------------------------------ canonical form of bool returns
+
+def normalise_bool_returns(det):
+    """`fn f(..) -> bool { …; cond }`, `{ a == b }`, `{ g(x) }` store a computed value into the return place; `if cond { true } else
+    { false }` stores constants behind a branch.  The rules talk about "returns true only if …", so every non-constant store of a bool
+    return place is rewritten into the branch form: `x = <value>; switch x { 0 => _0 = false, _ => _0 = true }`.  Purely a change of
+    presentation (the value is the same on every path); afterwards `return true` / `return false` sites exist in either source form."""
+    ty0 = det["locals"].get("0", "")
+    ty0 = str(ty0.get("ty", "")) if isinstance(ty0, dict) else str(ty0)
+    if ty0 != "bool":
+        return det
+    todo = []
+    for b in det["blocks"]:
+        if b["cleanup"]:
+            continue
+        for i, s in enumerate(b["stmts"]):
+            if s["d"] == [0] and not (s["rv"]["k"] == "use" and s["rv"]["a"][0] == "c"):
+                todo.append((b["id"], "s"))
+                break
+        t = b["term"]
+        if t["k"] == "call" and t.get("d") == [0] and t.get("t") is not None:
+            todo.append((b["id"], "c"))
+    if not todo:
+        return det
+    det = dict(det, blocks=[dict(b, stmts=list(b["stmts"]), term=dict(b["term"])) for b in det["blocks"]], locals=dict(det["locals"]))
+    byid = {b["id"]: b for b in det["blocks"]}
+    nb = max(byid) + 1
+    nl = max([int(k) for k in det["locals"]] + [0]) + 1
+
+    def add(stmts, term):
+        nonlocal nb
+        blk = {"id": nb, "cleanup": False, "stmts": stmts, "term": term}
+        det["blocks"].append(blk)
+        byid[nb] = blk
+        nb += 1
+        return blk
+
+    for bid, kind in todo:
+        b = byid[bid]
+        while True:
+            idx = next((i for i, s in enumerate(b["stmts"]) if s["d"] == [0] and not (s["rv"]["k"] == "use" and s["rv"]["a"][0] == "c")), None)
+            if idx is None:
+                break
+            s = b["stmts"][idx]
+            x = nl
+            nl += 1
+            det["locals"][str(x)] = "bool"
+            rest = add(b["stmts"][idx + 1:], b["term"])
+            bt = add([{"d": [0], "rv": {"k": "use", "a": ["c", "true", "bool"]}, "l": s.get("l"), "norm": True}], {"k": "goto", "t": rest["id"]})
+            bf = add([{"d": [0], "rv": {"k": "use", "a": ["c", "false", "bool"]}, "l": s.get("l"), "norm": True}], {"k": "goto", "t": rest["id"]})
+            b["stmts"] = b["stmts"][:idx] + [{"d": [x], "rv": s["rv"], "l": s.get("l")}]
+            b["term"] = {"k": "switch", "on": ["mv", [x]], "targets": [["0", bf["id"]]], "otherwise": bt["id"], "l": s.get("l"), "bool_return": True}
+            b = rest
+        t = b["term"]
+        if t["k"] == "call" and t.get("d") == [0] and t.get("t") is not None:
+            x = nl
+            nl += 1
+            det["locals"][str(x)] = "bool"
+            tgt = t["t"]
+            bt = add([{"d": [0], "rv": {"k": "use", "a": ["c", "true", "bool"]}, "l": t.get("l"), "norm": True}], {"k": "goto", "t": tgt})
+            bf = add([{"d": [0], "rv": {"k": "use", "a": ["c", "false", "bool"]}, "l": t.get("l"), "norm": True}], {"k": "goto", "t": tgt})
+            sw = add([], {"k": "switch", "on": ["mv", [x]], "targets": [["0", bf["id"]]], "otherwise": bt["id"], "l": t.get("l"), "bool_return": True})
+            t["d"] = [x]
+            t["t"] = sw["id"]
+    det["blocks"].sort(key=lambda b: b["id"])
+    return det
+
+
+def normalise_result_returns(det):
+    """`fn f(..) -> Result<..> { …; g(x) }` / `{ …; res }` forward a computed Result (or Option) as the return value; `match g(x) { Ok(v) =>
+    Ok(v), Err(e) => Err(e) }` builds it behind a branch.  Rules speak of "returns Ok only if …", so a forwarded value is rewritten into
+    the branch form: `x = <value>; switch discriminant(x) { Ok => _0 = Ok(x.0), Err => _0 = Err(x.0) }` (Some/None alike).  `?`'s
+    `from_residual` is left alone: it only ever yields the error variant."""
+    ty0 = det["locals"].get("0", "")
+    ty0 = str(ty0.get("ty", "")) if isinstance(ty0, dict) else str(ty0)
+    head = ty0.split("<")[0]
+    if head.endswith("result::Result") or head == "Result":
+        adt, variants = "core::result::Result", [("Ok", 0), ("Err", 1)]
+    elif head.endswith("option::Option") or head == "Option":
+        adt, variants = "core::option::Option", [("None", 0), ("Some", 1)]
+    else:
+        return det
+
+    def forwarded_stmt(s):
+        rv = s["rv"]
+        return s["d"] == [0] and rv["k"] == "use" and rv["a"][0] in ("mv", "cp") and len(rv["a"][1]) == 1 and not s.get("norm")
+
+    def forwarded_call(t):
+        if t["k"] != "call" or t.get("d") != [0] or t.get("t") is None:
+            return False
+        nm = (t.get("gen") or "") + " " + (t.get("callee") or "")
+        return not ("from_residual" in nm)
+
+    todo = [b["id"] for b in det["blocks"] if not b["cleanup"] and (any(forwarded_stmt(s) for s in b["stmts"]) or forwarded_call(b["term"]))]
+    if not todo:
+        return det
+    det = dict(det, blocks=[dict(b, stmts=list(b["stmts"]), term=dict(b["term"])) for b in det["blocks"]], locals=dict(det["locals"]))
+    byid = {b["id"]: b for b in det["blocks"]}
+    st = {"nb": max(byid) + 1, "nl": max([int(k) for k in det["locals"]] + [0]) + 1}
+
+    def add(stmts, term):
+        blk = {"id": st["nb"], "cleanup": False, "stmts": stmts, "term": term}
+        det["blocks"].append(blk)
+        byid[st["nb"]] = blk
+        st["nb"] += 1
+        return blk
+
+    def fresh(ty):
+        l = st["nl"]
+        st["nl"] += 1
+        det["locals"][str(l)] = ty
+        return l
+
+    def split(x, line, cont):
+        """blocks: d = discriminant(x); switch d → per variant `_0 = Variant(x.0)` → cont; returns the id of the switch block"""
+        d = fresh("isize")
+        arms = []
+        for name, idx in variants:
+            fields, ops = (["0"], [["mv", [x, "@" + name, ".0"]]]) if name not in ("None",) else ([], [])
+            a = add([{"d": [0], "rv": {"k": "agg", "ak": "adt", "adt": adt, "variant": name, "fields": fields, "ops": ops}, "l": line, "norm": True}],
+                    {"k": "goto", "t": cont})
+            arms.append((idx, a["id"]))
+        unreachable = add([], {"k": "unreachable"})
+        sw = add([{"d": [d], "rv": {"k": "discr", "p": [x]}, "l": line, "norm": True}],
+                 {"k": "switch", "on": ["mv", [d]], "targets": [[str(i), a] for i, a in arms], "otherwise": unreachable["id"], "l": line, "result_return": True})
+        return sw["id"]
+
+    for bid in todo:
+        b = byid[bid]
+        while True:
+            idx = next((i for i, s in enumerate(b["stmts"]) if forwarded_stmt(s)), None)
+            if idx is None:
+                break
+            s = b["stmts"][idx]
+            x = s["rv"]["a"][1][0]
+            rest = add(b["stmts"][idx + 1:], b["term"])
+            sw = split(x, s.get("l"), rest["id"])
+            b["stmts"] = b["stmts"][:idx]
+            b["term"] = {"k": "goto", "t": sw}
+            b = rest
+        t = b["term"]
+        if forwarded_call(t):
+            x = fresh(ty0)
+            sw = split(x, t.get("l"), t["t"])
+            t["d"] = [x]
+            t["t"] = sw
+    det["blocks"].sort(key=lambda b: b["id"])
+    return det
